@@ -124,9 +124,6 @@ func (e ottoError) describe(format string, in ...interface{}) string {
 }
 
 func (e ottoError) messageValue() Value {
-	if e.message == "" {
-		return Value{}
-	}
 	return stringValue(e.message)
 }
 
